@@ -246,7 +246,18 @@ func (ex *Exec) keyEq(a, b Value) bool {
 	return ex.Branch(t)
 }
 
+func (ex *Exec) fpMap(m *MapVal, write bool) {
+	if ex.fpOn && m != nil && m.ID <= ex.fpMark {
+		if write {
+			ex.fpW[m.ID] = true
+		} else {
+			ex.fpR[m.ID] = true
+		}
+	}
+}
+
 func (ex *Exec) mapFind(m *MapVal, k Value) int {
+	ex.fpMap(m, false)
 	for i := range m.Entries {
 		if ex.keyEq(m.Entries[i].K, k) {
 			return i
@@ -256,6 +267,7 @@ func (ex *Exec) mapFind(m *MapVal, k Value) int {
 }
 
 func (ex *Exec) mapSet(m *MapVal, k, v Value) {
+	ex.fpMap(m, true)
 	ex.mapMutable(m)
 	if i := ex.mapFind(m, k); i >= 0 {
 		m.Entries[i].V = v
@@ -265,6 +277,7 @@ func (ex *Exec) mapSet(m *MapVal, k, v Value) {
 }
 
 func (ex *Exec) mapDelete(m *MapVal, k Value) {
+	ex.fpMap(m, true)
 	ex.mapMutable(m)
 	if i := ex.mapFind(m, k); i >= 0 {
 		ne := make([]mapEntry, 0, len(m.Entries)-1)
@@ -320,6 +333,7 @@ func (ex *Exec) rangeInit(x Value) Value {
 		if len(ex.guards) > 0 {
 			ex.guardMap(xv, false)
 		}
+		ex.fpMap(xv, false)
 		it := &rangeIter{m: xv}
 		if xv != nil {
 			it.keys = append(it.keys, xv.Entries...)
